@@ -13,8 +13,8 @@ LEVEL = "exploration"
 RULE = (
     "A case = a DIMSE message description (any of the 23 kinds, refs/dimse_gen), a peer maximum length (0, 7, 8, 9, 16, 128, "
     "16382, 65536, 2^32-1, a random value 7..2^32-1, or chosen relative to the command-set length so that it divides into "
-    "k fragments exactly / one byte more / one byte less), a data-set length given as k*f+d with f = max-6 (k 0..50, d -1/0/+1; "
-    "or absolute 0..N) filled with SHAKE-128 bytes, in memory (BytesIO) or file-backed (C-STORE request with "
+    "k fragments exactly / one byte more / one byte less), a data-set length given as k*f+d with f = max-6 (k 1..50, d -1/0/+1; "
+    "or absolute 0..3000) filled with SHAKE-128 bytes, in memory (BytesIO) or file-backed (C-STORE request with "
     "_dataset_path=(file, offset)), the local role (requestor/acceptor; the peer's maximum is then acceptor/requestor "
     "maximum_length and the local one is set to a different value), and a regrouping pattern. The message is sent with the "
     "real DIMSEServiceProvider.send_msg of a thread-free Association whose dul.send_pdu records; every recorded P-DATA is "
@@ -22,7 +22,8 @@ RULE = (
     "regrouped into P-DATA primitives by the pattern and fed to a fresh DIMSEMessage.decode_msg and to the peer-role "
     "association's dimse.receive_primitive. Non-trivial = some part (command set or data set) is sent in >=2 fragments or "
     "its length is an exact multiple of the fragment size; distinct = distinct resolved (kind, max, command length, data "
-    "length, storage, role, regrouping)."
+    "length, storage, role, regrouping). A deterministic sweep additionally covers every data length 0..3f+1 for max 7, 8, 9, "
+    "16, 38 in memory and file-backed."
 )
 ASSUMPTIONS = [
     "PS3.8 Annex D.1: the Maximum Length Received value bounds the length of the variable field of a P-DATA-TF PDU (the "
